@@ -859,7 +859,8 @@ def phase_model(c, drv, hx, model_cases, kernel_cases, child_cases, strace_cases
     # D4: wrappers with scripted children
     for name, L, k, term, mode, rc in child_cases:
         lines_answered = L if k == -1 else min(k, L)
-        mlines.append("W %s %d %d %s 1" % (name, L, lines_answered, term))
+        # one record per input line, one child line each (the scripted child answers line by line)
+        mlines.append("WM %s %s %d 0 %s | |" % (name, ",".join(["1"] * L) or "-", lines_answered, term))
         expect.append((rc_to_status(rc), "class"))
         meta.append((name, (k, term, mode), False))
     # D6: shard (threads): per output descriptor the order of calls is deterministic; replay each descriptor's
@@ -908,6 +909,30 @@ def phase_model(c, drv, hx, model_cases, kernel_cases, child_cases, strace_cases
         mlines.append("L 1 %d | %s" % (sfd, " ".join(outcome_tokens(sub))))
         expect.append((rc_to_status(rc), fmt_events(sub)))
         meta.append((t, ("launch",) + tuple(fault), False))
+    # D9: the three wrappers, a failing read on the wrapper's own stdin or on the child's stdout pipe (not Launch's status pipe):
+    #     the thread's sub-trace is the oracle of that thread in wrapper_main_run (status only: the record logic is instantiated
+    #     by the needs of the catalogue input; for foldfilter the split into pieces is not recomputed here, any needs that the
+    #     echoing child satisfies give the same status)
+    needs_by_tool = {"cache": [1, 1, 0, 1], "b64filter": [2, 1], "foldfilter": [4, 1]}
+    for t, fault, rc, ev, base_ev in model_cases:
+        if t.kind != "wrapper" or t.name not in needs_by_tool or rc == "timeout" or fault[0] != "read":
+            continue
+        st_reads = [e for e in base_ev if e[0] == "read" and e[2] == 4]
+        sfd = st_reads[0][1] if st_reads else None
+        badr = [e for e in ev if e[0] == "read" and e[3] < 0 and e[4] != 4]
+        if not badr or badr[0][1] == sfd:
+            continue
+        bfd = badr[0][1]
+        child_fds = [e[1] for e in base_ev if e[0] == "write" and e[1] != 1]
+        cfd = child_fds[0] if child_fds else -1
+        fsub = [e for e in ev if e[1] in (0, cfd)] if bfd == 0 else []
+        csub = [e for e in ev if e[1] in (bfd, 1)] if bfd != 0 else []
+        needs = needs_by_tool[t.name]
+        mlines.append("WM %s %s %d 0 exit:0 | %s | %s" % (t.name, ",".join(str(x) for x in needs), sum(needs),
+                                                           " ".join(outcome_tokens(fsub)), " ".join(outcome_tokens(csub))))
+        expect.append((rc_to_status(rc), "class"))
+        meta.append((t, ("wrapper-read", bfd) + tuple(fault), False))
+        c.cov["wrapper_read_fault_replays"] = c.cov.get("wrapper_read_fault_replays", 0) + 1
     # D5: iostream tools under strace injection: the segmentation of stdout into write(2) calls is the one observed in the
     #     fault-free run; the outcomes are the ones strace reports for the faulted run
     for t, inject, rc, calls, clean_calls in strace_cases:
@@ -968,7 +993,7 @@ def phase_model(c, drv, hx, model_cases, kernel_cases, child_cases, strace_cases
     c.cov["traces_validated_against_impl"] += len(mlines)
     if bad:
         l, o, est, eev, m = min(bad, key=lambda b: len(b[0]))
-        c.broken.append("correspondence ExitDefs (script_run / iostream_run / wrapper_status) vs real executables: %d of %d runs disagree; smallest: %s %s: model=%r real=%r %r" % (
+        c.broken.append("correspondence ExitDefs (script_run / iostream_run / wrapper_main_run) vs real executables: %d of %d runs disagree; smallest: %s %s: model=%r real=%r %r" % (
             len(bad), len(mlines), getattr(m[0], "label", m[0]), m[1], o[:300], est, (eev or "")[:300]))
 
 
@@ -1005,7 +1030,7 @@ def main(argv):
         rule="(A) every catalogue invocation of all 24 executables under libvfault: for each of read/write/fsync/close, EVERY k up to the number of such calls in the fault-free run (+1 unreachable control) fails with EIO/ENOSPC/EPIPE (quick: one errno per k, rotating; thorough: all three), plus EINTR / fsync-EINVAL controls; "
              "(A2) stdout a regular file: every fsync of fd 1 in turn and all of them fail with EIO/ENOSPC (per-descriptor enumeration, independent of earlier fsyncs on pipes); (B) real kernel failures: stdout=/dev/full, stdout=pipe without reader, RLIMIT_FSIZE=n for every n up to the output size (iostream tools; boundary values for the others), stdin=directory; "
              "(B2) strace fault injection (reaches glibc stdio): EVERY read(0) and EVERY write(1) system call of the four iostream tools fails with EIO / ENOSPC / EPIPE; (C) cache/foldfilter/b64filter (+warc_parallel) with scripted children: every exit code 0..255 and every fatal signal after answering everything, and for every k in 0..L answers: exit 0/1/255, SIGKILL/SIGTERM/SIGSEGV, draining stdin or not; "
-             "(D) extracted Coq model vs real code: random oracles for the util::FileStream mini tool (short writes, EINTR, zero writes, ignored fsync errnos, failures at every call index, outputs crossing the 8 KiB buffer), Wait for all exit codes and fatal signals, and replay of every (A)/(B)/(C) run through script_run / iostream_run / wrapper_status. "
+             "(D) extracted Coq model vs real code: random oracles for the util::FileStream mini tool (short writes, EINTR, zero writes, ignored fsync errnos, failures at every call index, outputs crossing the 8 KiB buffer), Wait for all exit codes and fatal signals, and replay of every (A)/(B)/(C) run through script_run / iostream_run / wrapper_main_run. "
              "distinct = distinct (tool, fault) / (wrapper, child behaviour) / oracle cases in which the fault was delivered",
         assumptions=["an exception leaving main or a thread, or thrown by a destructor, ends the process through std::terminate -> abort (SIGABRT); checked on every faulted run",
                      "the oracle model of the OS: one outcome per system call in program order, perfect behaviour after the scripted prefix",
